@@ -98,7 +98,7 @@ FAMILIES = {
     "quick": dict(
         net=dict(maxsteps=8, restarts=0, dups=1, drops=1, ticks=1, retx=1, blocks=2, faults=0, crashes=0, close=True),
         restart=dict(maxsteps=7, restarts=1, dups=0, drops=1, ticks=1, retx=0, blocks=2, faults=0, crashes=0, close=True),
-        fault=dict(maxsteps=6, restarts=0, dups=0, drops=0, ticks=1, retx=0, blocks=2, faults=1, crashes=0, close=True),
+        fault=dict(maxsteps=6, restarts=0, dups=0, drops=0, ticks=1, retx=1, blocks=2, faults=1, crashes=0, close=True),
         crash=dict(maxsteps=6, restarts=0, dups=0, drops=0, ticks=0, retx=0, blocks=2, faults=0, crashes=1, close=True),
         # one adversarial duplicate (a node sends a message twice; e.g. the request: refused with cancel): D1 / D3 / D4 only
         adv=dict(maxsteps=6, restarts=0, dups=0, advdups=1, drops=0, ticks=0, retx=0, blocks=2, faults=0, crashes=0, close=True),
@@ -106,7 +106,7 @@ FAMILIES = {
     "thorough": dict(
         net=dict(maxsteps=9, restarts=0, dups=1, drops=2, ticks=2, retx=1, blocks=3, faults=0, crashes=0, close=True),
         restart=dict(maxsteps=8, restarts=2, dups=1, drops=1, ticks=1, retx=1, blocks=3, faults=0, crashes=0, close=True),
-        fault=dict(maxsteps=7, restarts=1, dups=0, drops=1, ticks=1, retx=0, blocks=3, faults=1, crashes=0, close=True),
+        fault=dict(maxsteps=7, restarts=1, dups=0, drops=1, ticks=1, retx=1, blocks=3, faults=1, crashes=0, close=True),
         crash=dict(maxsteps=7, restarts=1, dups=0, drops=0, ticks=1, retx=0, blocks=3, faults=0, crashes=1, close=True),
         crashfault=dict(maxsteps=6, restarts=0, dups=0, drops=0, ticks=0, retx=0, blocks=2, faults=1, crashes=1, close=True),
         adv=dict(maxsteps=7, restarts=1, dups=0, advdups=1, drops=1, ticks=1, retx=0, blocks=3, faults=0, crashes=0, close=True),
